@@ -2,7 +2,7 @@
 import re
 
 from .. import run as R
-from ..boundgen import BoundGen, CMP, STRUCT_ONLY, FORMS, expected_where, where_text, tpath
+from ..boundgen import BoundGen, CMP, STRUCT_ONLY, FORMS, expected_where, expected_where_second, where_text, tpath
 from ..check import Prop
 
 BOTH = ['Clone', 'Copy', 'Debug', 'Default'] + CMP
@@ -95,6 +95,16 @@ class C04(Prop):
                 if want != got:
                     bad = (want, got)
                     break
+            if not bad and m.get('second') and tr not in ('Clone', 'Copy') and not (tr in STRUCT_ONLY or tr == 'Deref') \
+                    and r.input_text().count(m['second']) == 1:
+                # the co-derived Clone (the nested `#[derive_ex(..)]` attributes name the first trait only, unless that is Clone / Copy; cases whose nested attributes name the co-derived trait as well are left to L1)
+                sec = [p for p in r.actual if p[0] == 'IMPL' and _impl_trait(p[1]) == tpath(m['second'])]
+                if len(sec) == 1:
+                    ts2, ps2 = expected_where_second(m)
+                    want = norm_hrtb(where_text(m['second'], 'plain', None, ts2, ps2))
+                    got = where_of(sec[0][1])
+                    if want != got:
+                        bad = (want, got)
             if bad:
                 failures.append(dict(**{'class': classify(m, bad), 'mode': 'header'}, input=r.input_text(),
                                      expected=bad[0], observed=bad[1]))
